@@ -125,6 +125,10 @@ def astmPeakCounting( data, refLevel=None, aggregate=True ):
         raise ValueError( "Input data length should be at least 2")
     if refLevel is None:
         refLevel = 0.0
+
+    # Remove the intermediate value first so that a peak or valley spanning 
+    # several equal points is still recognised
+    data = np.array( sequenceFilter.sequencePeakValleyFilter( data, keepEnds=True ) )
     
     rstDict = defaultdict( int )
     rstSeq = [ ]
